@@ -377,3 +377,28 @@ CHECKS["C10"] = NS(
     ASSUMPTIONS=["CPU only: 'on the device of the target model' is checked for cpu", "memory-format changes (channels_last) are not part of these histories (safetensors refuses non-contiguous tensors of any model)"],
     PLAN={"quick": [("cycles", 16, {"n": 100})], "thorough": [("cycles", 16, {"n": 4000})]},
 )
+
+CHECKS["C14"] = NS(
+    MODULE="c14_config",
+    LEVEL="exploration",
+    LEVEL_TEXT=(
+        "Enumeration of the configuration grid: quantize_weight over 6 qtypes x axis in {None,-2,-1,0,1,2} x group_size in {None, "
+        "1..2*numel} x 4 optimizer families x 14 shapes of rank 1-4 (stratified 1-in-8 sample in the quick tier, complete in the thorough "
+        "tier); quantize_activation, SymmetricQuantizer.apply and AffineQuantizer.apply over axis x scale / zero-point shape variants "
+        "(complete in both tiers); the automatic group size for every in_features 1..8192 and a Conv2d channel/group/kernel grid "
+        "(complete in both tiers, a sample is instantiated for real, run and frozen). Oracle: outcome is ValueError or a returned tensor; "
+        "every listed unsupported configuration must raise ValueError; an accepted tensor must carry exactly the requested qtype/axis/"
+        "group size and satisfy the structural invariant and the C01/C02 bounds."
+    ),
+    LEVEL_NOTE="whether a configuration outside the property's list should be rejected is not second-guessed; values are one fixed non-centred noise tensor per shape (value behaviour is C01/C02's subject)",
+    TECHNIQUE="exhaustive enumeration of a finite configuration grid (property-based testing without sampling) with an accept-or-ValueError totality oracle and the shared invariants",
+    RULE=(
+        "Explicit enumeration as above. Non-trivial: any configuration other than the suite's (axis 0, group None|8, shapes (32,32)/(32,10,32)); "
+        "group-size cases other than the suite's sampled in_features. Distinct by the configuration tuple."
+    ),
+    ASSUMPTIONS=["the symmetric quantizer and quantize_activation are exercised with 8-bit qtypes only (their stated domain)"],
+    PLAN={
+        "quick": [("weight", 8, {"every": 8}), ("quantizers", 4, {}), ("group", 4, {"max_inf": 8192})],
+        "thorough": [("weight", 10, {"every": 1}), ("quantizers", 2, {}), ("group", 4, {"max_inf": 8192})],
+    },
+)
